@@ -32,7 +32,7 @@ ASSUMPTIONS = ["no faults are injected in this check (see C20)",
                "the `lock` field is excluded: _get_instance_state deliberately externalises it as False",
                "every compared instance has a session when GET /save-state is called"]
 FAULT_KINDS = []
-PROBES = ["second_session_in_instance", "loaded_via_timeout", "loaded_via_load_state", "loaded_via_restart", "saved_via_save_state", "compressed_mode",
+PROBES = ["save_state_after_eviction", "second_session_in_instance", "loaded_via_timeout", "loaded_via_load_state", "loaded_via_restart", "saved_via_save_state", "compressed_mode",
           "step_without_body", "step_with_empty_settings", "nonuniform_settings", "decimal_dt"]
 EXHAUSTIVE = {"quick": False, "thorough": False}
 
@@ -48,7 +48,8 @@ def plan(tier, verif_seed):
 
 def _sett(rng, template, scen):
     if template == "T1":
-        return {"smA": {scen: {"constants": {"constant": rng.choice([0.5, 2.0, 3.0, 7.0])}}}}
+        # 0.1 and 1/3: sums such as 0.30000000000000004 need all 17 significant digits to survive a round trip
+        return {"smA": {scen: {"constants": {"constant": rng.choice([0.5, 2.0, 3.0, 7.0, 0.1, 0.3333333333333333])}}}}
     r = rng.random()
     if r < 0.4:
         return {"smA": {scen: {"constants": {"k": rng.choice([0.5, 1.0, 2.0])}}}}
@@ -67,7 +68,7 @@ def generate(spec):
     adapter = rng.choice(["plain", "compressed"])
     eqs = {"T1": ["stock", "flow", "constant"], "T2": ["stockA", "stockB", "move", "gain"]}[template]
     save_route = rng.choice(["auto", "auto", "save_state"])
-    load_route = rng.choice(["timeout", "load_state", "restart"])
+    load_route = rng.choice(["timeout", "load_state", "restart", "timeout_then_save_state"])
     uniform = rng.random() < 0.35     # every step carries the same settings structure
     insts = []
     for j in range(rng.choice([1, 1, 2, 3])):
@@ -119,6 +120,14 @@ def generate(spec):
                        "model": {"template": template, "start": start, "stop": stop, "dt": dt,
                                  "managers": {"smA": {"base": {}, "alt": {"constants": {"constant": 2.0} if template == "T1" else {"drain": 1.0}}}}}},
             "instances": insts, "save_route": save_route, "load_route": load_route}
+
+
+def rng_bit(case):
+    return len(case["instances"]) % 2 == 0
+
+
+def T_first_eq(cfg):
+    return {"T1": "stock", "T2": "stockA"}[cfg["model"]["template"]]
 
 
 def _normkey(k):
@@ -243,6 +252,20 @@ def execute(case):
             w.clock.advance(31 * 10**6)
             w.get("/metrics", auth=False)
             res.probe("loaded_via_timeout")
+        elif route == "timeout_then_save_state":
+            # the instances leave memory first, THEN somebody saves the whole server (which now holds nothing, or only
+            # a fresh instance): the externalised state of the evicted instances must survive that
+            w.clock.advance(31 * 10**6)
+            w.get("/metrics", auth=False)
+            if rng_bit(case):
+                rr = w.post("/start-instance", {"timeout": {"minutes": 5}})
+                try:
+                    w.post("/%s/begin-session" % rr.body["instance_uuid"], {"scenario_managers": ["smA"], "scenarios": ["base"],
+                                                                           "equations": [T_first_eq(cfg)]})
+                except Exception:
+                    pass
+            w.get("/save-state")
+            res.probe("save_state_after_eviction")
         elif route == "load_state":
             r = w.post("/load-state")
             res.probe("loaded_via_load_state")
